@@ -6,7 +6,7 @@ SPEC = {
         "technique": ("machine-checked proof in Coq (nested induction over schema trees; frame lemmas for dotted assignment "
                       "lifted over arbitrary namespaces) + model/implementation correspondence by vm_compute through the "
                       "real generated ArgumentParser"),
-        "text": ("Twelve theorems in coq/theories/Paths*.v. For every well-formed schema tree of any depth and width with "
+        "text": ("Eleven theorems in coq/theories/Paths*.v. For every well-formed schema tree of any depth and width with "
                  "identifier keys and an empty own key: each (path, field) of get_all_fields resolves by Schema.__getitem__ "
                  "to that very field, the field's _ref_path is the path, on every conforming configuration membership "
                  "holds and config[path] = chained attribute access for value-holding fields, and config[path] = x equals "
